@@ -394,7 +394,7 @@ DoFailRedo(s, fk) ==
       w2 == ReAdd(w1, s, s.new)
       w3 == ReDel(w2, s, ObjOrder)
       fl == IF w3.ret = "ok" THEN DoFlush(w3.st) ELSE w3
-  IN R(fl.st, <<f.ret, rb.ret, w3.ret, fl.ret>>)
+  IN R(fl.st, f.ret \o "/" \o rb.ret \o "/" \o w3.ret \o "/" \o fl.ret)
 \* ------------------------------------------------------------------ actions
 Clear(s) == [s EXCEPT !.ev = {}, !.sql = 0]
 Step(name, arg, res) == LET r == res IN st' = r.st /\ last' = [a |-> name, arg |-> arg, ret |-> r.ret, ev |-> r.st.ev, sql |-> r.st.sql]
@@ -522,7 +522,7 @@ PendingRollbackUntilRollback == [][ st.needrb =>
 \* repeating the same work after the rollback succeeds and gives what the failure-free flush would have given
 RedoOk == [][ last'.a = "FailRedo" =>
                LET ok == FlushWith(Clear(st), 0) IN
-               /\ last'.ret = <<"InjectedFault", "ok", "ok", "ok">>
+               /\ last'.ret = "InjectedFault/ok/ok/ok"
                /\ ok.ret = "ok" /\ st'.work = ok.st.work /\ st'.committed = st.committed
                /\ \A o \in Objs : st'.life[o] = ok.st.life[o] /\ st'.key[o] = ok.st.key[o]
                /\ st'.imap = ok.st.imap /\ st'.new = <<>> /\ st'.sdel = {} ]_vars
